@@ -129,6 +129,18 @@ Proof.
 Qed.
 Print Assumptions c01_predicate_holds.
 
+(* ... and the ghost-corrected predicate (the invariant itself in executable form: the identities of
+   [c01_identities]) holds after EVERY history, with no known-finding hypothesis on the final state; the runner
+   uses it to tell a failure inside a known class from any other failure *)
+Theorem c01_adjusted_predicate_holds : forall c lc ops b sp t pr denoms, cfg_ok c -> (forall d, b VAULT d = 0) ->
+  hist_ok c lc (lift (init b sp t pr)) ops ->
+  holds_C01_adj c denoms (lrun_all c lc ops (lift (init b sp t pr))) = true.
+Proof.
+  intros c lc ops b sp t pr denoms CK Hb HO. apply invL_holds_adj.
+  exact (history_invL c lc ops CK _ HO (invL_init c b sp t pr Hb)).
+Qed.
+Print Assumptions c01_adjusted_predicate_holds.
+
 (* C01-F2 refuted on the faithful model: after seizure and one full bid on a product with a closing fee no
    vault is open or awaiting settlement and the published TokenMintedAmount is -50000 *)
 Theorem c01_settlement_totals_refuted :
